@@ -451,6 +451,14 @@ def splat_kwargs(I, kwargs, d):
 
 
 def make_set(I, items):
+    """{e(x) for x in <symbolic sequence>}: a set whose members are the elements of the mapped sequence (a set is carried as an
+    enumeration of its members; duplicates in the enumeration do not matter to membership, any dependence on the enumeration
+    order is an `ord` obligation)"""
+    if isinstance(items, MList):
+        return MSet(V.vl(items.t))
+    if isinstance(items, SV) and entailed(I, V.is_VList(items.t)):
+        _used("set comprehension over a symbolic sequence: the set of the mapped elements (membership = membership in the mapped list)")
+        return MSet(V.vl(items.t))
     raise Unsupported("set with symbolic elements")
 
 
